@@ -166,8 +166,9 @@ def run_case(acc, case):
         y = Q @ x
         if case['noisy']:
             y = y + case['noise'] * np.array([((-1) ** i) * (0.3 + 0.1 * (i % 5)) for i in range(Q.shape[0])])
-        dense.append((Q, y, case['noise']))
-        ms.append((wrap(case['wrap'], Q), y.copy(), case['noise'], (attrs[ai],)))
+        s_i = case['noise'] * (1.0 if ai == 0 else 2.5)   # measurements of one set carry different noise scales
+        dense.append((Q, y, s_i))
+        ms.append((wrap(case['wrap'], Q), y.copy(), s_i, (attrs[ai],)))
     ref, nparts = reference_total(dense)
     fn = estimators()[case['estimator']]
     with M.quiet():
